@@ -1,5 +1,6 @@
 //! vverif: property-based testing / fuzzing harness deciding the 20 VpnCloud properties
 //! (see /verif/DESIGN.md). Every check runs the real code of /repo, linked as a library.
 pub mod engine;
+pub mod fuzzdrv;
 pub mod sim;
 pub mod props;
